@@ -25,6 +25,7 @@ structure File where
 
 inductive Ev where
   | mkdir (path : List Bytes)            -- components below the db root
+  | mkdirTree                            -- the 256 + 65 536 mkdirs of `pre_create_all_cas_directories`
   | creat (f : FileId) (trunc : Bool)    -- successful open with O_CREAT (and O_TRUNC / O_EXCL)
   | write (f : FileId) (bs : Bytes)      -- append (all store writes are sequential appends)
   | sync (f : FileId)                    -- fsync / fdatasync
@@ -36,6 +37,7 @@ inductive Ev where
 structure Disk where
   files : List (FileId × File) := []
   dirs : List (List Bytes) := []         -- directories that exist (below the root)
+  preTree : Bool := false                -- the whole cas/<hh>/<hh> tree exists
   deriving Repr
 
 def fget (fs : List (FileId × File)) (f : FileId) : Option File :=
@@ -59,6 +61,7 @@ def Disk.has (d : Disk) (f : FileId) : Bool := (fget d.files f).isSome
 /-- effect of one successful mutating call -/
 def Disk.apply (d : Disk) : Ev → Disk
   | .mkdir p => if d.dirs.contains p then d else { d with dirs := d.dirs ++ [p] }
+  | .mkdirTree => { d with preTree := true }
   | .creat f trunc =>
     match d.get f with
     | none => { d with files := fset d.files f ⟨[], 0⟩ }
